@@ -7,7 +7,7 @@ def gen(rng, tier):
     out = []
     for i in range(n):
         out.append(schedgen.gen_basic(rng)); out.append(schedgen.gen_suspend(rng)); out.append(schedgen.gen_join(rng))
-        out.append(schedgen.gen_directed(rng)); out.append(schedgen.gen_lifecycle(rng)); out.append(schedgen.gen_migrate(rng))
+        out.append(schedgen.gen_directed(rng)); out.append(schedgen.gen_lifecycle(rng)); out.append(schedgen.gen_migrate(rng)); out.append(schedgen.gen_migrate(rng, self_suspend=True))
     return out, {"scenarios": len(out)}
 
 def run(tier, seed, replay):
